@@ -1,7 +1,13 @@
 --------------------------- MODULE MC_ResultSummary ---------------------------
-EXTENDS ResultSummary
+EXTENDS ResultSummary, Json
 MCLenGrid == {1, 5, 9}
 MCValGrid == {NaN, -1234567, 500400}
 MCValGridQ == {NaN, -1234567}
 MCPGrid == {NaN, 999, 1000, 62500}
+\* small grids for the specification -> implementation replay: every finished table is emitted with its input
+MCLenGridE == {1, 9}
+MCValGridE == {NaN, -1234567}
+MCSemGridE == {NaN, 500400}
+MCPGridE == {NaN, 999, 1000, 62400}
+Emit == stage = "done" => PrintT(ToJson([inp |-> inp, doc |-> doc]))
 =============================================================================
